@@ -71,6 +71,7 @@ class Scheduler:
         self.max_steps = max_steps
         self.steps = 0
         self.on_tick = None
+        self.on_event = None
         self._ident_of = {}
 
     # -- API for programs
@@ -246,6 +247,8 @@ class CoopLock:
         self.owner = t
         self.depth += 1
         s.log.append(("acq", t.idx, self.name))
+        if s.on_event:
+            s.on_event(s.log[-1])
         return True
 
     def release(self):
@@ -286,6 +289,8 @@ class CoopLock:
         self.owner = t
         self.depth = d
         s.log.append(("acq", t.idx, self.name))
+        if s.on_event:
+            s.on_event(s.log[-1])
 
 
 class CoopCondition:
@@ -315,13 +320,15 @@ class CoopCondition:
         if self.lock.owner is not t:
             raise RuntimeError("cannot wait on un-acquired lock")
         d = self.lock._release_save()
-        s.log.append(("wait", t.idx, self.name))
         t.status = WAITING
         t.wait_cond = self
         t.notified = False
         t.timed_out = False
         t.deadline = None if timeout is None else s.clock + max(timeout, 0)
         self.waiters.append(t)
+        s.log.append(("wait", t.idx, self.name))
+        if s.on_event:
+            s.on_event(s.log[-1])
         s._switch(t)
         notified = t.notified
         t.wait_cond = None
